@@ -1336,6 +1336,9 @@ func (st *Runtime) evalCommandExpression(node *CommandNode) (reflect.Value, bool
 	}
 	if term.IsValid() && node.Exprs != nil {
 		if term.Kind() == reflect.Func {
+			if term.IsNil() {
+				node.BaseExpr.errorf("call of nil function %q", node.BaseExpr)
+			}
 			if term.Type() == safeWriterType {
 				st.evalSafeWriter(term, node)
 				return reflect.Value{}, true
@@ -1405,6 +1408,9 @@ func (st *Runtime) evalCommandPipeExpression(node *CommandNode, value reflect.Va
 		node.BaseExpr.errorf("pipe command %q must be a function, but is %s", node.BaseExpr, term.Type())
 	}
 
+	if term.IsNil() {
+		node.BaseExpr.errorf("call of nil function %q", node.BaseExpr)
+	}
 	if term.Type() == safeWriterType {
 		st.evalSafeWriter(term, node, value)
 		return reflect.Value{}, true
